@@ -2,6 +2,7 @@ package main
 
 import (
 	"go/constant"
+	"go/types"
 	"sort"
 	"strings"
 
@@ -25,9 +26,75 @@ func (m *Model) isClaimLoadSym(s *Sym) bool {
 	return false
 }
 
-// claimLit: does the literal set establish claim == truth?
+// claimLit: does the literal set establish claim == truth? The claim value may have been
+// read directly, through IsLeader(), or through a helper that returns it (snapshot helpers).
 func (m *Model) claimLit(ls []Lit, truth bool) bool {
-	return hasLit(ls, truth, m.isClaimLoadSym)
+	return hasLit(ls, truth, m.isClaimValueSym)
+}
+
+// isClaimValueSym: the expression is a claim load, or a value all of whose origins are the claim field.
+func (m *Model) isClaimValueSym(s *Sym) bool {
+	if m.isClaimLoadSym(s) {
+		return true
+	}
+	if s == nil || s.V == nil {
+		return false
+	}
+	if b, ok := s.V.Type().Underlying().(*types.Basic); !ok || b.Kind() != types.Bool {
+		return false
+	}
+	switch s.V.(type) {
+	case *ssa.Extract, *ssa.Call, *ssa.Phi, *ssa.UnOp:
+	default:
+		return false
+	}
+	o := m.Origins(s.V)
+	return len(o) == 1 && o["field:"+m.Claim]
+}
+
+// clearPoint returns the instruction of f that clears the claim before `at` on every path:
+// the Store(false) itself, or a call of a library function that clears it on all its paths.
+func (m *Model) clearPoint(f *ssa.Function, at ssa.Instruction) ssa.Instruction {
+	var found ssa.Instruction
+	eachInstr(f, func(in ssa.Instruction) {
+		if found != nil {
+			return
+		}
+		if val, isConst, ok := m.claimStore(in); ok && isConst && !val && (at == nil || dominatesInstr(in, at)) {
+			found = in
+			return
+		}
+		if call, ok := in.(*ssa.Call); ok {
+			if g := call.Call.StaticCallee(); g != nil && m.isLib(g) && m.alwaysClears(g, 0) && (at == nil || dominatesInstr(in, at)) {
+				found = in
+			}
+		}
+	})
+	return found
+}
+
+// alwaysClears: every path through g stores false to the claim.
+func (m *Model) alwaysClears(g *ssa.Function, depth int) bool {
+	if g == nil || g.Blocks == nil || depth > 2 {
+		return false
+	}
+	first := g.Blocks[0].Instrs[0]
+	isClear := func(in ssa.Instruction) bool {
+		if val, isConst, ok := m.claimStore(in); ok && isConst && !val {
+			return true
+		}
+		if call, ok := in.(*ssa.Call); ok {
+			if h := call.Call.StaticCallee(); h != nil && h != g && m.isLib(h) && m.alwaysClears(h, depth+1) {
+				return true
+			}
+		}
+		return false
+	}
+	if isClear(first) {
+		return true
+	}
+	ok, _ := mustFollow(first, isClear, nil)
+	return ok
 }
 
 // staticCallee returns the library function statically called by the instruction, if any.
